@@ -67,44 +67,53 @@ pub fn take_trace() -> u64 {
     TRACE.with(|t| t.replace(0xcbf2_9ce4_8422_2325))
 }
 
+/// `P` bytes of inline padding: the size and layout of a node are one more thing the trait leaves open.
 #[derive(Clone)]
-pub enum SimDoc {
+pub enum Sim<const P: usize> {
     Null,
     Bool(bool),
     Int(i64),
     Float(f64),
     Str(String),
-    Arr(Vec<SimDoc>),
-    Obj(Vec<(String, SimDoc)>),
+    Arr(Vec<Sim<P>>),
+    Obj(Vec<(String, Sim<P>)>),
+    /// never constructed; gives the type its size
+    #[allow(dead_code)]
+    Pad([u8; P]),
 }
 
-impl SimDoc {
-    pub fn from_value(v: &Value) -> SimDoc {
+pub type SimDoc = Sim<0>;
+/// the same view in a node type of about half a kilobyte
+pub type FatDoc = Sim<480>;
+
+impl<const P: usize> Sim<P> {
+    pub fn from_value(v: &Value) -> Sim<P> {
         match v {
-            Value::Null => SimDoc::Null,
-            Value::Bool(b) => SimDoc::Bool(*b),
+            Value::Null => Sim::Null,
+            Value::Bool(b) => Sim::Bool(*b),
             Value::Number(n) => {
                 if let Some(i) = n.as_i64() {
-                    SimDoc::Int(i)
+                    Sim::Int(i)
                 } else {
-                    SimDoc::Float(n.as_f64().unwrap_or(0.0))
+                    Sim::Float(n.as_f64().unwrap_or(0.0))
                 }
             }
-            Value::String(s) => SimDoc::Str(s.clone()),
-            Value::Array(a) => SimDoc::Arr(a.iter().map(SimDoc::from_value).collect()),
-            Value::Object(o) => SimDoc::Obj(o.iter().map(|(k, v)| (k.clone(), SimDoc::from_value(v))).collect()),
+            Value::String(s) => Sim::Str(s.clone()),
+            Value::Array(a) => Sim::Arr(a.iter().map(Sim::from_value).collect()),
+            Value::Object(o) => Sim::Obj(o.iter().map(|(k, v)| (k.clone(), Sim::from_value(v))).collect()),
         }
     }
     /// Harness-side conversion: neither logged nor a schedule point.
     pub fn to_value(&self) -> Value {
         match self {
-            SimDoc::Null => Value::Null,
-            SimDoc::Bool(b) => Value::Bool(*b),
-            SimDoc::Int(i) => Value::Number(Number::from(*i)),
-            SimDoc::Float(f) => Number::from_f64(*f).map(Value::Number).unwrap_or(Value::Null),
-            SimDoc::Str(s) => Value::String(s.clone()),
-            SimDoc::Arr(a) => Value::Array(a.iter().map(|x| x.to_value()).collect()),
-            SimDoc::Obj(o) => {
+            Sim::Null => Value::Null,
+            Sim::Bool(b) => Value::Bool(*b),
+            Sim::Int(i) => Value::Number(Number::from(*i)),
+            Sim::Float(f) => Number::from_f64(*f).map(Value::Number).unwrap_or(Value::Null),
+            Sim::Str(s) => Value::String(s.clone()),
+            Sim::Arr(a) => Value::Array(a.iter().map(|x| x.to_value()).collect()),
+            Sim::Pad(_) => Value::Null,
+            Sim::Obj(o) => {
                 let mut m = Map::new();
                 for (k, v) in o {
                     m.insert(k.clone(), v.to_value());
@@ -113,42 +122,42 @@ impl SimDoc {
             }
         }
     }
-    fn quiet_eq(&self, other: &SimDoc) -> bool {
+    fn quiet_eq(&self, other: &Sim<P>) -> bool {
         match (self, other) {
-            (SimDoc::Null, SimDoc::Null) => true,
-            (SimDoc::Bool(a), SimDoc::Bool(b)) => a == b,
-            (SimDoc::Int(a), SimDoc::Int(b)) => a == b,
-            (SimDoc::Float(a), SimDoc::Float(b)) => a == b,
-            (SimDoc::Str(a), SimDoc::Str(b)) => a == b,
-            (SimDoc::Arr(a), SimDoc::Arr(b)) => a.len() == b.len() && a.iter().zip(b).all(|(x, y)| x.quiet_eq(y)),
-            (SimDoc::Obj(a), SimDoc::Obj(b)) => {
+            (Sim::Null, Sim::Null) => true,
+            (Sim::Bool(a), Sim::Bool(b)) => a == b,
+            (Sim::Int(a), Sim::Int(b)) => a == b,
+            (Sim::Float(a), Sim::Float(b)) => a == b,
+            (Sim::Str(a), Sim::Str(b)) => a == b,
+            (Sim::Arr(a), Sim::Arr(b)) => a.len() == b.len() && a.iter().zip(b).all(|(x, y)| x.quiet_eq(y)),
+            (Sim::Obj(a), Sim::Obj(b)) => {
                 a.len() == b.len() && a.iter().all(|(k, v)| b.iter().find(|(k2, _)| k2 == k).map(|(_, v2)| v.quiet_eq(v2)).unwrap_or(false))
             }
             _ => false,
         }
     }
     /// children in iteration order, for the harness' address walk
-    pub fn children(&self) -> Vec<(crate::npath::Step, &SimDoc)> {
+    pub fn children(&self) -> Vec<(crate::npath::Step, &Sim<P>)> {
         match self {
-            SimDoc::Arr(a) => a.iter().enumerate().map(|(i, x)| (crate::npath::Step::Idx(i), x)).collect(),
-            SimDoc::Obj(o) => o.iter().map(|(k, x)| (crate::npath::Step::Name(k.clone()), x)).collect(),
+            Sim::Arr(a) => a.iter().enumerate().map(|(i, x)| (crate::npath::Step::Idx(i), x)).collect(),
+            Sim::Obj(o) => o.iter().map(|(k, x)| (crate::npath::Step::Name(k.clone()), x)).collect(),
             _ => vec![],
         }
     }
 }
 
-impl Default for SimDoc {
+impl<const P: usize> Default for Sim<P> {
     fn default() -> Self {
         seam(15);
         if personality().default_is_null() {
-            SimDoc::Null
+            Sim::Null
         } else {
-            SimDoc::Str("<default>".into())
+            Sim::Str("<default>".into())
         }
     }
 }
 
-impl fmt::Debug for SimDoc {
+impl<const P: usize> fmt::Debug for Sim<P> {
     fn fmt(&self, f: &mut fmt::Formatter<'_>) -> fmt::Result {
         if personality().debug_like_value() {
             write!(f, "{:?}", self.to_value())
@@ -158,55 +167,55 @@ impl fmt::Debug for SimDoc {
     }
 }
 
-impl PartialEq for SimDoc {
+impl<const P: usize> PartialEq for Sim<P> {
     fn eq(&self, other: &Self) -> bool {
         seam(9);
         self.quiet_eq(other)
     }
 }
 
-impl From<&str> for SimDoc {
+impl<const P: usize> From<&str> for Sim<P> {
     fn from(s: &str) -> Self {
         seam(10);
-        SimDoc::Str(s.to_string())
+        Sim::Str(s.to_string())
     }
 }
-impl From<String> for SimDoc {
+impl<const P: usize> From<String> for Sim<P> {
     fn from(s: String) -> Self {
         seam(10);
-        SimDoc::Str(s)
+        Sim::Str(s)
     }
 }
-impl From<bool> for SimDoc {
+impl<const P: usize> From<bool> for Sim<P> {
     fn from(b: bool) -> Self {
         seam(11);
-        SimDoc::Bool(b)
+        Sim::Bool(b)
     }
 }
-impl From<i64> for SimDoc {
+impl<const P: usize> From<i64> for Sim<P> {
     fn from(i: i64) -> Self {
         seam(12);
-        SimDoc::Int(i)
+        Sim::Int(i)
     }
 }
-impl From<f64> for SimDoc {
+impl<const P: usize> From<f64> for Sim<P> {
     fn from(f: f64) -> Self {
         seam(13);
         if f.is_finite() {
-            SimDoc::Float(f)
+            Sim::Float(f)
         } else {
-            SimDoc::Null
+            Sim::Null
         }
     }
 }
-impl From<Vec<SimDoc>> for SimDoc {
-    fn from(v: Vec<SimDoc>) -> Self {
+impl<const P: usize> From<Vec<Sim<P>>> for Sim<P> {
+    fn from(v: Vec<Sim<P>>) -> Self {
         seam(14);
-        SimDoc::Arr(v)
+        Sim::Arr(v)
     }
 }
 
-impl Queryable for SimDoc {
+impl<const P: usize> Queryable for Sim<P> {
     fn get(&self, key: &str) -> Option<&Self> {
         seam(0);
         // the documented rule: the implementation strips the enclosing quotes
@@ -217,56 +226,56 @@ impl Queryable for SimDoc {
             key
         };
         match self {
-            SimDoc::Obj(o) => o.iter().find(|(k, _)| k == key).map(|(_, v)| v),
+            Sim::Obj(o) => o.iter().find(|(k, _)| k == key).map(|(_, v)| v),
             _ => None,
         }
     }
     fn as_array(&self) -> Option<&Vec<Self>> {
         seam(1);
         match self {
-            SimDoc::Arr(a) => Some(a),
+            Sim::Arr(a) => Some(a),
             _ => None,
         }
     }
     fn as_object(&self) -> Option<Vec<(&String, &Self)>> {
         seam(2);
         match self {
-            SimDoc::Obj(o) => Some(o.iter().map(|(k, v)| (k, v)).collect()),
+            Sim::Obj(o) => Some(o.iter().map(|(k, v)| (k, v)).collect()),
             _ => None,
         }
     }
     fn as_str(&self) -> Option<&str> {
         seam(3);
         match self {
-            SimDoc::Str(s) => Some(s.as_str()),
+            Sim::Str(s) => Some(s.as_str()),
             _ => None,
         }
     }
     fn as_i64(&self) -> Option<i64> {
         seam(4);
         match self {
-            SimDoc::Int(i) => Some(*i),
+            Sim::Int(i) => Some(*i),
             _ => None,
         }
     }
     fn as_f64(&self) -> Option<f64> {
         seam(5);
         match self {
-            SimDoc::Float(f) => Some(*f),
-            SimDoc::Int(i) if personality().f64_for_ints() => Some(*i as f64),
+            Sim::Float(f) => Some(*f),
+            Sim::Int(i) if personality().f64_for_ints() => Some(*i as f64),
             _ => None,
         }
     }
     fn as_bool(&self) -> Option<bool> {
         seam(6);
         match self {
-            SimDoc::Bool(b) => Some(*b),
+            Sim::Bool(b) => Some(*b),
             _ => None,
         }
     }
     fn null() -> Self {
         seam(7);
-        SimDoc::Null
+        Sim::Null
     }
     fn extension_custom(name: &str, args: Vec<Cow<Self>>) -> Self {
         seam(8);
@@ -274,8 +283,8 @@ impl Queryable for SimDoc {
         let vals: Vec<Value> = args.iter().map(|a| a.as_ref().to_value()).collect();
         let cows: Vec<Cow<Value>> = vals.iter().map(Cow::Borrowed).collect();
         let r = <Value as Queryable>::extension_custom(name, cows);
-        SimDoc::from_value(&r)
+        Sim::from_value(&r)
     }
 }
 
-impl JsonPath for SimDoc {}
+impl<const P: usize> JsonPath for Sim<P> {}
